@@ -23,6 +23,55 @@ type Case struct {
 	At      int    `json:"at,omitempty"`      // row index the corruption applies to
 	Count   int    `json:"count,omitempty"`   // field-count: the count written
 	Extra   bool   `json:"extended,omitempty"`
+	// Big: the text / bytea value at (Row, Col) is replaced by Len patterned bytes before the stream is
+	// encoded (values of a megabyte and more, without storing them in the case)
+	Big *Inflate `json:"big,omitempty"`
+}
+
+type Inflate struct {
+	Row int `json:"row"`
+	Col int `json:"col"`
+	Len int `json:"len"`
+}
+
+func clipv(s string) string {
+	if len(s) > 160 {
+		return fmt.Sprintf("%s...(%d bytes)", s[:160], len(s))
+	}
+	return s
+}
+
+func bigLimit(c Case) int {
+	if c.Big != nil {
+		return 8 << 20
+	}
+	return 1 << 16
+}
+
+// inflated returns the case with the big value materialised.
+func (c Case) inflated() Case {
+	if c.Big == nil || c.Big.Row >= len(c.Rows) || c.Big.Col >= len(c.Rows[c.Big.Row]) {
+		return c
+	}
+	rows := make([][]script.Val, len(c.Rows))
+	for i := range c.Rows {
+		rows[i] = append([]script.Val{}, c.Rows[i]...)
+	}
+	v := &rows[c.Big.Row][c.Big.Col]
+	b := make([]byte, c.Big.Len)
+	for i := range b {
+		b[i] = byte('a' + (i*7+i/251)%26)
+	}
+	switch v.T {
+	case "bytea":
+		v.Y, v.Null = b, ""
+	case "text", "varchar":
+		v.S, v.Null = string(b), ""
+	default:
+		return c
+	}
+	c.Rows = rows
+	return c
 }
 
 var signature = []byte("PGCOPY\n\377\r\n\000")
@@ -94,6 +143,10 @@ const q = "copy t from stdin binary"
 
 func Run(c Case) core.Result {
 	res := core.Result{}
+	if c.Big != nil {
+		c = c.inflated()
+		res.Labels = append(res.Labels, fmt.Sprintf("value>=%dKiB", c.Big.Len>>10>>6<<6))
+	}
 	stream, starts := c.stream()
 	// chunking
 	var msgs [][]byte
@@ -141,7 +194,7 @@ func Run(c Case) core.Result {
 	res.NonTrivial = (len(c.Rows) >= 2 && cutInside) || c.Trailer || c.Corrupt != ""
 
 	st := script.Stmt{Cols: c.Cols, Ops: []script.Op{{K: "copyin", Copy: &script.CopySpec{Format: 1, Rows: true, MaxReads: -1, OnAbort: "propagate"}}, {K: "complete", Tag: "COPY"}}}
-	cfg := script.Config{SetLimit: true, Limit: 1 << 16}
+	cfg := script.Config{SetLimit: true, Limit: bigLimit(c)}
 	cfg.Table.Q = map[string]script.Outcome{q: {Stmts: []script.Stmt{st}}}
 	env := script.Start(cfg)
 	defer env.Stop()
@@ -201,7 +254,7 @@ func Run(c Case) core.Result {
 		}
 		for j, v := range want {
 			if !pgwire.ValEqual(v.Canon(), ev.Row[j]) {
-				return fmt.Sprintf("row %d field %d (%s): got %s, want %s", i, j, v.T, pgwire.ValString(ev.Row[j]), pgwire.ValString(v.Canon()))
+				return fmt.Sprintf("row %d field %d (%s): got %s, want %s", i, j, v.T, clipv(pgwire.ValString(ev.Row[j])), clipv(pgwire.ValString(v.Canon())))
 			}
 		}
 		return ""
